@@ -59,17 +59,25 @@ def run_cached(c):
     try:
         counter = ReadCounter(h.storage)
         ck = specs.mk_checker(c['checker'])
+        backend = custom_backend() if c.get('custom') else None
         if c.get('custom'):
-            guard, st, cache = create_cached_guard(counter, ck, cache=custom_backend())
+            guard, st, cache = create_cached_guard(counter, ck, cache=backend)
         else:
             guard, st, cache = create_cached_guard(counter, ck, maxsize=c['cap'])
+        if c.get('drop_handle'):
+            # the caller keeps only (guard, storage): the third returned value is dropped and collected
+            import gc
+            del cache
+            gc.collect()
+            cache = None
 
         class L:
             n = 0
 
             def update(self):
                 L.n += 1
-        st.add_listener(L())
+        listener = L()              # kept alive by this frame
+        st.add_listener(listener)
         out, fresh = [], []
         for o in c['ops']:
             if o[0] == 'ask':
@@ -78,9 +86,9 @@ def run_cached(c):
                 a = guard.is_allowed(inq)
                 hit = counter.finds == 0
                 if c.get('custom'):
-                    size = len(cache.cache.store)
+                    size = len(backend.store)
                 else:
-                    size = cache.info().currsize
+                    size = guard.is_allowed_check.cache_info().currsize
                 out.append('ask %s hit=%s size=%d' % (s_bool(a) if isinstance(a, bool) else repr(a), s_bool(hit), size))
                 fresh.append(Guard(h.storage, specs.mk_checker(c['checker'])).is_allowed(specs.mk_inquiry(c['inquiries'][o[1]])))
             else:
@@ -160,7 +168,8 @@ class CachedGuardStream(Stream):
                     ops.append(['delete', rng.choice(['u0', 'u1', 'u2'])])
             custom = (i % 5 == 4)
             yield {'checker': ck, 'backend': backend, 'rxtable': sc['rxtable'], 'inquiries': inqs, 'classes': classes,
-                   'cap': None if custom else rng.choice(CAPS), 'custom': custom, 'ops': ops}
+                   'cap': None if custom else rng.choice(CAPS), 'custom': custom, 'ops': ops,
+                   'drop_handle': rng.random() < 0.5}
 
     def emit(self, c):
         qs = []
